@@ -355,6 +355,18 @@ func (r *Resolver) AutoTA() {
 					State:  StateStart,
 				}
 
+				if prev, dup := kskFetched[keyTag]; dup && dnskeyMaterialFP(prev.DNSKey) != dnskeyMaterialFP(dnskey) {
+					// Two fetched keys share a tag and the map holds one. The
+					// one that must not be lost is the revoked form of a
+					// current anchor: dropping it would leave a published,
+					// self-signed revocation unseen for as long as the
+					// collision lasts.
+					old := kskCurrent[keyTag-DNSKEYFlagRevoke]
+					if dnskey.Flags&DNSKEYFlagRevoke == 0 || old == nil || !sameKeyExceptRevoke(old.DNSKey, dnskey) {
+						zlog.Warn("Fetched KSKs share a key tag — keeping the first", "keytag", keyTag)
+						continue
+					}
+				}
 				kskFetched[keyTag] = ta
 			}
 		}
